@@ -1,16 +1,54 @@
-"""C09 — oblivious if/elif/else, while and for compute what native control flow computes."""
-import json
+"""C09 — oblivious if/elif/else, while and for compute what native control flow computes.
+
+Three ties per generated program:
+  * direct oracle on the real code: the program rendered with the library's block constructs on secret values against
+    the same program rendered with native control flow on plain ints (harness/worker_block.py), plus satisfaction of every
+    emitted constraint, no dangling guard, and equal constraint/wire counts on a second input vector;
+  * model-vs-code correspondence: the same program is sent to the Lean model (Driver/ProtoBlock.lean, the interpreter the
+    C09 theorems are about) and its final variables (names, order, values, wire expressions), every constraint in emission
+    order, every witness value and the final guard state are compared with the real run;
+  * spec-vs-native: the model side also runs Spec/Native.lean (the reference semantics of the theorems) and its final values
+    are compared with the native Python run.
+"""
+import json, re
 from .. import common
 from ..framework import Exploration, Violation
+from . import c09_typed as typed
 
 ASSUMPTIONS = ["each structured program is rendered as Python source twice and exec'd in the worker: with the library's constructs "
                "(_if/_elif/_else/_endif, _range/_endfor, _while/_breakif/_endwhile, if_then_else with callables) on secret values — "
-               "`while _while(c, ctx=_) and k < M:` on one line, ctx passed explicitly — and with native control flow on plain ints",
-               "variables are all defined before the first block (the 'variable first set inside a branch' rules of BranchingValues "
-               "are exercised by a few corpus programs only)"]
-PARTIAL = []
+               "`while _while(c, ctx=_) and k < M:` on one line, ctx passed explicitly — and with native control flow on plain ints; the Lean "
+               "model interprets the same program (sent as prefix-notation text) and decides statically which `_while` call opens a loop "
+               "(the library uses the caller's line number)",
+               "conditions are comparisons of secret integers (LinCombBool, the documented condition type); a raw LinComb 0/1 passed as a "
+               "block condition is rejected by the library at merge time (RuntimeError, checked by a fixed probe on every run) and is outside the property",
+               "for-loop bounds are drawn in 0..max (the domain of _range(bound, max=...)); a 5 % stream takes a bound out of its cap and is compared "
+               "model-vs-code only, except negative bounds, which are the known finding C09-negative-bound",
+               "a malformed stream (variable bound in only some arms / inside a loop / else dropped) is compared model-vs-code only: "
+               "the library reports these as RuntimeError by design",
+               "comparison operands must fit the bit length (16 here): a run in which the library's own range check raises ValueError is counted "
+               "as out-of-domain, not as a deviation",
+               "the typed stream (tracked variables of boolean / fixed-point / list kind, value-level if_then_else on mixed kinds, in-place element "
+               "updates, references to list objects) is checked by the direct oracle only: the Lean statement language has integer-valued tracked "
+               "variables; in-place updates of a list that is aliased or referenced are not generated except in the fixed program of the known finding "
+               "C09-list-inplace-through-reference"]
+PARTIAL = [{"theorem": "C09_refines", "excludes": "nothing: for every program of the statement language, every nesting and all values, when the traced run "
+            "completes (the library's own range/usage checks are what makes a run fail) the native run does not fail and, unless it reaches a for loop whose "
+            "bound is outside 0..max, ends with the same variables and values"},
+           {"theorem": "C09_untouched", "excludes": "nothing"},
+           {"theorem": "C09_sat", "excludes": "nothing (any prime modulus, any bit length, run started without a guard)"},
+           {"theorem": "C09_oblivious", "excludes": "nothing (two completed runs from states of the same shape)"},
+           {"theorem": "C09_cex_negative_bound", "excludes": "closed counterexample: a negative secret bound runs max rounds where range(bound) runs none"}]
+TRUSTED_EXTRA = ["harness/worker_block.py renders the structured program as Python source for the real run; Driver/ProtoBlock.lean parses the same "
+                 "program for the model (parser not verified; a parse difference shows up as a correspondence disagreement)",
+                 "object identity (`truev is falsev` in if_then_else) is modelled by identity stamps on tracked objects; the model stops with UNMODELLED "
+                 "if two objects with one stamp ever differ (never observed; counted in unmodelled_cases)",
+                 "tracked variables of boolean, fixed-point and list kind are outside the Lean model (oracle only)"]
+
+CMPS = ["lt", "le", "eq", "ne", "gt", "ge"]
 
 
+# ------------------------------------------------------------------ generator
 def gen_expr(rnd, vars_, ninp, depth=0, loopvars=()):
     c = rnd.random()
     if depth > 1 or c < 0.35:
@@ -21,152 +59,508 @@ def gen_expr(rnd, vars_, ninp, depth=0, loopvars=()):
         return ["const", rnd.randrange(-3, 6)]
     op = rnd.choice(["add", "add", "sub", "mul"])
     a = gen_expr(rnd, vars_, ninp, depth + 1, loopvars)
-    b = gen_expr(rnd, vars_, ninp, depth + 1, loopvars) if op != "mul" else ["const", rnd.randrange(0, 4)]
+    if op == "mul" and rnd.random() < 0.15:
+        b = gen_expr(rnd, vars_, ninp, 2, loopvars)       # secret * secret: one constraint
+    elif op == "mul":
+        b = ["const", rnd.randrange(0, 4)]
+    else:
+        b = gen_expr(rnd, vars_, ninp, depth + 1, loopvars)
     return [op, a, b]
 
 
+def has_secret(e):
+    s = json.dumps(e)
+    return '"var"' in s or '"in"' in s
+
+
+def secret_expr(rnd, vars_, ninp, depth, loopvars):
+    """value of a tracked variable: always involves a secret (tracked variables hold secret integers)"""
+    e = gen_expr(rnd, vars_, ninp, depth, loopvars)
+    if not has_secret(e):
+        e = ["add", ["in", rnd.randrange(ninp)], e]
+    elif e[0] in ("var", "in") and rnd.random() < 0.6:
+        e = ["add", e, ["const", rnd.randrange(0, 3)]]      # keep some bare names: `_.x = _.y` aliases the object
+    return e
+
+
 def gen_cond(rnd, vars_, ninp, loopvars=()):
-    # the left side always contains a secret (a tracked variable or an input): the property is about secret conditions
+    # one side always contains a secret (a tracked variable or an input): the property is about secret conditions
     a = ["var", rnd.choice(vars_)] if rnd.random() < 0.5 else ["in", rnd.randrange(ninp)]
     if rnd.random() < 0.4:
         a = [rnd.choice(["add", "sub"]), a, gen_expr(rnd, vars_, ninp, 1, loopvars)]
-    return [rnd.choice(["lt", "le", "eq", "ne", "gt", "ge"]), a, ["const", rnd.randrange(-2, 5)]]
+    k = rnd.random()
+    if k < 0.7:
+        b = ["const", rnd.randrange(-2, 5)]
+    elif k < 0.85:
+        b = gen_expr(rnd, vars_, ninp, 1, loopvars)          # secret vs secret
+    else:
+        b = ["loopvar", rnd.choice(loopvars)] if loopvars else ["const", rnd.randrange(-2, 5)]
+    if rnd.random() < 0.12:
+        return [rnd.choice(CMPS), b, a]          # (often) a plain value on the left: the reflected comparison method
+    return [rnd.choice(CMPS), a, b]
 
 
-def gen_block(rnd, vars_, ninp, depth, budget, loopvars=()):
-    out = []
-    for _ in range(rnd.randrange(1, 3)):
-        if budget[0] <= 0:
-            break
-        budget[0] -= 1
-        c = rnd.random()
-        if c < 0.45 or depth >= 2:
-            if rnd.random() < 0.15 and ninp >= 2:
-                # an exact division that is only valid when the enclosing condition holds is generated separately (see gen_prog)
-                pass
-            e = gen_expr(rnd, vars_, ninp, 0, loopvars)
-            if '"var"' not in json.dumps(e) and '"in"' not in json.dumps(e):
-                e = ["add", ["in", rnd.randrange(ninp)], e]      # tracked variables stay secret
-            out.append(["assign", rnd.choice(vars_), e])
-        elif c < 0.75:
-            arms = [[gen_cond(rnd, vars_, ninp, loopvars), gen_block(rnd, vars_, ninp, depth + 1, budget, loopvars)]
-                    for _ in range(rnd.choice([1, 1, 2, 3]))]
-            els = gen_block(rnd, vars_, ninp, depth + 1, budget, loopvars) if rnd.random() < 0.6 else None
-            out.append(["if", arms, els])
-        elif c < 0.87:
-            lv = f"i{depth}"
-            mx = rnd.randrange(1, 5)
-            out.append(["for", lv, ["in", rnd.randrange(ninp)] if ninp else ["const", 2], mx,
-                        gen_block(rnd, vars_, ninp, depth + 1, budget, loopvars + (lv,))])
-        elif c < 0.95:
-            out.append(["while", gen_cond(rnd, vars_, ninp, loopvars), rnd.randrange(1, 4),
-                        gen_block(rnd, vars_, ninp, depth + 1, budget, loopvars),
-                        gen_cond(rnd, vars_, ninp, loopvars) if rnd.random() < 0.5 else None])
+class G:
+    def __init__(self, rnd, ninp, nextvar, maxdepth):
+        self.rnd = rnd; self.ninp = ninp; self.nextvar = nextvar; self.maxdepth = maxdepth
+        self.budget = rnd.randrange(3, 10)
+
+    def fresh(self):
+        v = f"x{self.nextvar}"; self.nextvar += 1
+        return v
+
+    def block(self, vars_, depth, loopvars=(), allow_new=True, n=None):
+        """vars_: variables bound at this point (a copy is passed down; bindings made in nested blocks do not leak except
+        through the new-variable template, which binds in every arm)"""
+        rnd = self.rnd
+        vars_ = list(vars_)
+        out = []
+        for _ in range(n if n is not None else rnd.randrange(1, 4)):
+            if self.budget <= 0:
+                break
+            self.budget -= 1
+            c = rnd.random()
+            if c < 0.40 or depth >= self.maxdepth:
+                out.append(["assign", rnd.choice(vars_), secret_expr(rnd, vars_, self.ninp, 0, loopvars)])
+            elif c < 0.47 and allow_new:
+                # a variable first bound at this level (plain assignment / lazily evaluated selection)
+                nv = self.fresh()
+                if rnd.random() < 0.5:
+                    out.append(["assign", nv, secret_expr(rnd, vars_, self.ninp, 0, loopvars)])
+                else:
+                    out.append(self.ite(nv, vars_, loopvars))
+                vars_.append(nv)
+            elif c < 0.58 and allow_new:
+                nv = self.fresh()
+                out.append(self.newvar_if(nv, vars_, depth, loopvars))
+                vars_.append(nv)
+            elif c < 0.76:
+                arms = [[gen_cond(rnd, vars_, self.ninp, loopvars), self.block(vars_, depth + 1, loopvars, allow_new=False)]
+                        for _ in range(rnd.choice([1, 1, 2, 3, 4]))]
+                els = self.block(vars_, depth + 1, loopvars, allow_new=False) if rnd.random() < 0.6 else None
+                out.append(["if", arms, els])
+            elif c < 0.86:
+                lv = f"i{depth}"
+                mx = rnd.randrange(1, 5)
+                out.append(["for", lv, ["in", rnd.randrange(self.ninp)], mx,
+                            self.block(vars_, depth + 1, loopvars + (lv,), allow_new=False)])
+            elif c < 0.95:
+                out.append(["while", gen_cond(rnd, vars_, self.ninp, loopvars), rnd.randrange(0, 4),
+                            self.block(vars_, depth + 1, loopvars, allow_new=False),
+                            gen_cond(rnd, vars_, self.ninp, loopvars) if rnd.random() < 0.5 else None])
+            else:
+                out.append(self.ite(rnd.choice(vars_), vars_, loopvars))
+        return out
+
+    def ite(self, target, vars_, loopvars):
+        rnd = self.rnd
+        # the condition of a lazily evaluated selection always involves a secret input
+        return ["ite", target, [rnd.choice(CMPS), ["in", rnd.randrange(self.ninp)], ["const", rnd.randrange(-2, 5)]],
+                gen_expr(rnd, vars_, self.ninp, 1, loopvars), gen_expr(rnd, vars_, self.ninp, 1, loopvars)]
+
+    def define(self, nv, vars_, depth, loopvars):
+        """a block that binds nv on every path"""
+        rnd = self.rnd
+        pre = self.block(vars_, depth + 1, loopvars, allow_new=False, n=rnd.randrange(0, 2))
+        if depth + 1 < self.maxdepth and rnd.random() < 0.3:
+            d = [self.newvar_if(nv, vars_, depth + 1, loopvars)]
         else:
-            # the condition of a lazily evaluated selection always involves a secret input (the property is about secret conditions)
-            out.append(["ite", rnd.choice(vars_), [rnd.choice(["lt", "le", "eq", "ne", "gt", "ge"]), ["in", rnd.randrange(ninp)], ["const", rnd.randrange(-2, 5)]],
-                        gen_expr(rnd, vars_, ninp, 1, loopvars),
-                        gen_expr(rnd, vars_, ninp, 1, loopvars)])
-    return out
+            d = [["assign", nv, secret_expr(rnd, vars_, self.ninp, 1, loopvars)]]
+        post = [["assign", nv, ["add", ["var", nv], ["const", rnd.randrange(1, 3)]]]] if rnd.random() < 0.3 else []
+        return pre + d + post
+
+    def newvar_if(self, nv, vars_, depth, loopvars):
+        """if/elif/else in which every arm binds the new variable nv (the nodefvals rules of BranchContext.exit)"""
+        rnd = self.rnd
+        arms = [[gen_cond(rnd, vars_, self.ninp, loopvars), self.define(nv, vars_, depth, loopvars)]
+                for _ in range(rnd.choice([1, 1, 2, 3]))]
+        return ["if", arms, self.define(nv, vars_, depth, loopvars)]
 
 
-def fix_for_bounds(prog, rnd):
+def walk(stmts, f):
+    for s in stmts:
+        f(s)
+        if s[0] == "for":
+            walk(s[4], f)
+        elif s[0] == "if":
+            for c, b in s[1]: walk(b, f)
+            if s[2]: walk(s[2], f)
+        elif s[0] == "while":
+            walk(s[3], f)
+
+
+def fix_for_bounds(prog, rnd, outside=False):
     """for-loops take their bound from an input: make that input a valid bound 0..(smallest max it is used with)"""
     caps = {}
-    def walk(stmts):
-        for s in stmts:
-            if s[0] == "for":
-                if s[2][0] == "in":
-                    caps[s[2][1]] = min(caps.get(s[2][1], s[3]), s[3])
-                walk(s[4])
-            elif s[0] == "if":
-                for c, b in s[1]: walk(b)
-                if s[2]: walk(s[2])
-            elif s[0] == "while":
-                walk(s[3])
-    walk(prog["body"])
+    def see(s):
+        if s[0] == "for" and s[2][0] == "in":
+            caps[s[2][1]] = min(caps.get(s[2][1], s[3]), s[3])
+    walk(prog["body"], see)
     for k, mx in caps.items():
         prog["inputs"][k] = rnd.randrange(0, mx + 1)
+    if outside and caps:
+        k = rnd.choice(sorted(caps))
+        prog["inputs"][k] = rnd.choice([-1, -2, caps[k] + 1, caps[k] + 2])
+        if prog["inputs"][k] < 0:
+            prog["feature"] = "negative-for-bound"
+    return bool(caps)
 
 
-def gen_prog(rnd):
+def make_malformed(prog, rnd):
+    """break one of the library's documented usage rules; returns a tag or None"""
+    ifs = []
+    walk(prog["body"], lambda s: ifs.append(s) if s[0] == "if" else None)
+    loops = []
+    walk(prog["body"], lambda s: loops.append(s) if s[0] in ("for", "while") else None)
+    k = rnd.random()
+    if k < 0.35 and ifs:
+        s = rnd.choice(ifs)
+        if s[2] is not None:
+            s[2] = None if rnd.random() < 0.5 else [st for st in s[2] if st[0] != "assign"] or None
+            return "else-dropped"
+    if k < 0.7 and ifs:
+        s = rnd.choice(ifs)
+        arm = rnd.choice(s[1])
+        arm[1].append(["assign", "x9", ["add", ["in", 0], ["const", 1]]])
+        return "bound-in-one-arm"
+    if loops:
+        s = rnd.choice(loops)
+        (s[4] if s[0] == "for" else s[3]).append(["assign", "x9", ["add", ["in", 0], ["const", 1]]])
+        return "bound-in-loop"
+    return None
+
+
+def gen_prog(rnd, stream="valid"):
     nv = rnd.randrange(1, 4); ninp = rnd.randrange(1, 4)
     vars_ = [f"x{i}" for i in range(nv)]
     prog = {"init": {v: rnd.randrange(-3, 6) for v in vars_}, "secret_vars": list(vars_),        # all tracked variables are secret: every condition is a secret condition
             "inputs": [rnd.randrange(-2, 6) for _ in range(ninp)]}
-    prog["body"] = gen_block(rnd, vars_, ninp, 0, [rnd.randrange(2, 8)])
-    fix_for_bounds(prog, rnd)
+    g = G(rnd, ninp, nv, rnd.choice([2, 3, 3]))
+    prog["body"] = g.block(vars_, 0)
+    prog["stream"] = stream
+    if not fix_for_bounds(prog, rnd, outside=(stream == "uncapped")) and stream == "uncapped":
+        prog["stream"] = "valid"           # no for loop: nothing to take out of its cap
+    if stream == "malformed":
+        prog["malformed"] = make_malformed(prog, rnd)
     return prog
+
+
+TEMPLATES = [
+    # nested while-in-for (the repaired `_while` directly inside an oblivious for loop), for-in-if, break, elif chain, new variable
+    {"init": {"x0": 1, "x1": 0}, "inputs": [2, 3],
+     "body": [["for", "i0", ["in", 0], 3, [["while", ["lt", ["var", "x1"], ["in", 1]], 2, [["assign", "x1", ["add", ["var", "x1"], ["const", 1]]]],
+                                            ["ge", ["var", "x1"], ["const", 4]]],
+                                           ["assign", "x0", ["add", ["var", "x0"], ["loopvar", "i0"]]]]]]},
+    {"init": {"x0": 4}, "inputs": [1, 2],
+     "body": [["if", [[["gt", ["var", "x0"], ["const", 3]], [["for", "i1", ["in", 1], 3, [["assign", "x0", ["add", ["var", "x0"], ["const", 2]]]]]]],
+                      [["eq", ["in", 0], ["const", 1]], [["assign", "x0", ["sub", ["var", "x0"], ["const", 1]]]]],
+                      [["lt", ["in", 0], ["const", 0]], [["assign", "x0", ["mul", ["var", "x0"], ["const", 2]]]]]],
+               [["assign", "x0", ["add", ["in", 0], ["const", 0]]]]]]},
+    {"init": {"x0": 2}, "inputs": [3],
+     "body": [["if", [[["lt", ["in", 0], ["const", 2]], [["assign", "x1", ["add", ["var", "x0"], ["const", 1]]]]],
+                      [["lt", ["in", 0], ["const", 4]], [["assign", "x1", ["in", 0]]]]],
+               [["assign", "x1", ["var", "x0"]]]],
+              ["assign", "x0", ["add", ["var", "x1"], ["var", "x0"]]]]},
+    {"init": {"x0": 0}, "inputs": [5],
+     "body": [["while", ["lt", ["var", "x0"], ["in", 0]], 3, [["assign", "x0", ["add", ["var", "x0"], ["const", 2]]]], ["eq", ["var", "x0"], ["const", 4]]],
+              ["assign", "x0", ["var", "x0"]]]},
+    # aliasing: `_.x1 = _.x0` outside and again inside a block (the `truev is falsev` shortcut of if_then_else)
+    {"init": {"x0": 3, "x1": 1}, "inputs": [1],
+     "body": [["assign", "x1", ["var", "x0"]], ["if", [[["eq", ["in", 0], ["const", 1]], [["assign", "x1", ["var", "x0"]], ["assign", "x0", ["mul", ["var", "x0"], ["const", 1]]]]]], None]]},
+]
+
+
+def templates(rnd):
+    out = []
+    for t in TEMPLATES:
+        for _ in range(3):
+            p = json.loads(json.dumps(t))
+            p["secret_vars"] = list(p["init"]); p["stream"] = "valid"
+            p["inputs"] = [rnd.randrange(-1, 5) for _ in p["inputs"]]
+            p["init"] = {k: rnd.randrange(-2, 5) for k in p["init"]}
+            fix_for_bounds(p, rnd)
+            out.append(p)
+    return out
 
 
 def uses(prog, kind):
     return kind in json.dumps(prog["body"])
 
 
+# ------------------------------------------------------------------ program text for the Lean driver
+def vnum(name):
+    return int(name[1:])
+
+
+def expr_tok(e):
+    t = e[0]
+    if t == "var": return f"v{vnum(e[1])}"
+    if t == "in": return f"i{e[1]}"
+    if t == "const": return f"c{e[1]}"
+    if t == "loopvar": return f"l{vnum(e[1])}"
+    return {"add": "+", "sub": "-", "mul": "*"}[t] + " " + expr_tok(e[1]) + " " + expr_tok(e[2])
+
+
+def cond_tok(c):
+    return f"{c[0]} {expr_tok(c[1])} {expr_tok(c[2])}"
+
+
+def block_tok(stmts):
+    return "{ " + " ".join(stmt_tok(s) for s in stmts) + (" " if stmts else "") + "}"
+
+
+def stmt_tok(s):
+    t = s[0]
+    if t == "assign":
+        return f"A v{vnum(s[1])} {expr_tok(s[2])}"
+    if t == "ite":
+        return f"T v{vnum(s[1])} {cond_tok(s[2])} {expr_tok(s[3])} {expr_tok(s[4])}"
+    if t == "if":
+        arms, els = s[1], s[2]
+        out = f"I {cond_tok(arms[0][0])} {block_tok(arms[0][1])}"
+        for c, b in arms[1:]:
+            out += f" F {cond_tok(c)} {block_tok(b)}"
+        out += f" L {block_tok(els)}" if els is not None else " E"
+        return out
+    if t == "for":
+        return f"R l{vnum(s[1])} {expr_tok(s[2])} {s[3]} {block_tok(s[4])}"
+    if t == "while":
+        return f"W {cond_tok(s[1])} {s[2]} {block_tok(s[3])} " + ("N" if s[4] is None else "B " + cond_tok(s[4]))
+    raise ValueError(t)
+
+
+def model_line(cid, prog, bl=16):
+    init = ",".join(f"{vnum(k)}:{v}" for k, v in prog["init"].items())
+    return f"BL|{cid}|p={common.BN128},bl={bl}|{init}|{','.join(map(str, prog['inputs']))}|{block_tok(prog['body'])}"
+
+
+def parse_model(out):
+    f = out.split("|")
+    if len(f) < 2:
+        return {"status": "bad", "raw": out[:200]}
+    if f[1] != "ok":
+        d = {"status": f[1]}
+        for x in f[2:]:
+            if "=" in x:
+                k, v = x.split("=", 1); d[k] = v
+        return d
+    d = {"status": "ok", "vars": f[2]}
+    for x in f[3:]:
+        k, v = x.split("=", 1); d[k] = v
+    return d
+
+
+def parse_state(s):
+    return dict(x.split("=", 1) for x in s.split("|"))
+
+
+def diff_model(api, m):
+    """model vs real run, levels V (variables), S (constraints, guard state), W (witness)"""
+    if api["status"] != "ok" or m["status"] != "ok":
+        a = "ok" if api["status"] == "ok" else "err:" + api["status"]
+        return None if a == m["status"] else [("V", f"status impl={a} model={m['status']}")]
+    out = []
+    if api["canon_vars"] != m["vars"]:
+        av = api["canon_vars"].split(";"); mv = m["vars"].split(";")
+        k = next((i for i, (x, y) in enumerate(zip(av, mv)) if x != y), min(len(av), len(mv)))
+        out.append(("V", f"variables differ at #{k}: impl={av[k][:100] if k < len(av) else None} model={mv[k][:100] if k < len(mv) else None}"))
+    st = parse_state(api["canon_state"])
+    for k in ("G", "IGN", "ONE"):
+        if st[k] != m[k]:
+            out.append(("S", f"{k}: impl={st[k][:80]} model={m[k][:80]}"))
+    if st["CONS"] != m["CONS"]:
+        ac = st["CONS"].split(" & "); mc = m["CONS"].split(" & ")
+        k = next((i for i, (x, y) in enumerate(zip(ac, mc)) if x != y), min(len(ac), len(mc)))
+        out.append(("S", f"{len(ac)} vs {len(mc)} constraints, first difference at #{k}: impl={ac[k][:100] if k < len(ac) else None} "
+                         f"model={mc[k][:100] if k < len(mc) else None}"))
+    if st["PRIV"] != m["PRIV"] or st["PUB"] != m["PUB"]:
+        out.append(("W", "witness values differ"))
+    if m.get("STACK", "0") != str(api.get("stack", 0)):
+        out.append(("S", f"open contexts impl={api.get('stack')} model={m.get('STACK')}"))
+    return out or None
+
+
+# a negative secret bound: `range(bound)` is empty, the oblivious loop runs all `max` rounds (known finding C09-negative-bound)
+NEG_BOUND = {"init": {"x0": 3}, "secret_vars": ["x0"], "inputs": [-1], "stream": "uncapped", "feature": "negative-for-bound",
+             "body": [["for", "i0", ["in", 0], 2, [["assign", "x0", ["add", ["var", "x0"], ["const", 1]]]]]]}
+
+RAW_PROBE = {"init": {"x0": 3}, "secret_vars": ["x0"], "inputs": [1], "rawcond": True,
+             "body": [["if", [[["eq", ["in", 0], ["const", 1]], [["assign", "x0", ["add", ["var", "x0"], ["const", 1]]]]]], None]]}
+
+
+# ------------------------------------------------------------------ exploration
 def explore(ctx, extended=False, focus=None):
     ex = Exploration()
-    ex.rule = ("random structured programs over 1-3 tracked variables and 1-3 secret inputs: assignments, if/elif/else chains, for "
-               "loops with a secret bound capped by a public maximum, while loops with optional break conditions, lazily evaluated "
-               "selections, nested to depth 3; each executed with the library's constructs and with native control flow; twice with "
-               "different inputs to compare the number of constraints; distinct = distinct program texts; non-trivial = has a block")
-    n = ctx.n(250, 6000) * (3 if extended else 1)
-    progs_ = [gen_prog(ctx.rnd) for _ in range(n)]
+    ex.rule = ("random structured programs over 1-3 tracked variables and 1-3 secret inputs: assignments (incl. bare-name aliasing and secret*secret), "
+               "if/elif/else chains (1-4 arms), variables first bound inside every arm of an if/elif/else (nested), for loops with a secret bound capped "
+               "by a public maximum, while loops (cap 0-3) with optional break conditions, lazily evaluated selections, secret-vs-secret and "
+               "reflected comparisons, nested to depth 3, plus fixed nesting templates (while-in-for, for-in-if, elif chain, aliasing); 8 % malformed "
+               "and 5 % out-of-cap programs compared model-vs-code only; each valid program executed with the library's constructs and with native "
+               "control flow, twice with different inputs to compare the number of constraints, and by the Lean model (values, constraints, "
+               "witness); distinct = distinct program texts; non-trivial = has a block")
+    n = ctx.n(420, 8000) * (3 if extended else 1)
+    progs_ = templates(ctx.rnd) + typed.fixed_progs(ctx.rnd) + [json.loads(json.dumps(typed.LEAK))]
+    for p in progs_:
+        fix_for_bounds(p, ctx.rnd)
+    progs_.append(json.loads(json.dumps(NEG_BOUND)))
+    while len(progs_) < n:
+        r = ctx.rnd.random()
+        if r < 0.30:
+            p = typed.gen_typed(ctx.rnd); fix_for_bounds(p, ctx.rnd)
+            progs_.append(p)
+        else:
+            progs_.append(gen_prog(ctx.rnd, "malformed" if r < 0.36 else "uncapped" if r < 0.40 else "valid"))
     lines = [f"B|b{i}|16|{json.dumps(p)}" for i, p in enumerate(progs_)]
-    # second run with other input values / initial values (same text): constraint counts must agree
+    # the same program text on two more vectors of secret values (inputs and initial values re-drawn, so conditions flip and
+    # branch values coincide or not): the constraint system and the wire expression of every final variable must not change
+    NTW = 2
     twins = []
     for p in progs_:
-        q = json.loads(json.dumps(p))
-        q["inputs"] = [ctx.rnd.randrange(-2, 6) for _ in q["inputs"]]
-        q["init"] = {k: ctx.rnd.randrange(-3, 6) for k in q["init"]}
-        fix_for_bounds(q, ctx.rnd)
-        twins.append(q)
+        for _ in range(NTW):
+            q = typed.reroll(p, ctx.rnd)
+            fix_for_bounds(q, ctx.rnd)
+            twins.append(q)
     lines2 = [f"B|t{i}|16|{json.dumps(p)}" for i, p in enumerate(twins)]
     outs = common.run_workers(lines, script="worker_block.py")
     outs2 = common.run_workers(lines2, script="worker_block.py")
-    for p, o, o2 in zip(progs_, outs, outs2):
+    modelled = [i for i, p in enumerate(progs_) if not p.get("typed")]
+    okb, outb, _ = common.lake_build(["PysnarkModel.Driver.ProtoBlock"])      # the driver module of this property (no-op when up to date)
+    if not okb:
+        # the model (or its driver) no longer builds: the tie is broken; the direct oracle still runs
+        ex.disagreements.append({"case": "lake build PysnarkModel.Driver.ProtoBlock", "diff": [("X", outb[-800:])]})
+        modelled = []
+    mres = common.lean_driver([model_line(f"b{i}", progs_[i]) for i in modelled])
+    mouts = {i: o for i, o in zip(modelled, mres)}
+    # the documented condition type: a raw LinComb condition must be rejected (RuntimeError at merge time)
+    probe = json.loads(common.run_workers([f"B|probe|16|{json.dumps(RAW_PROBE)}"], script="worker_block.py")[0].split("|", 1)[1])
+    ex.count(f"raw-lincomb-condition:{probe.get('api', {}).get('status')}")
+    if probe.get("api", {}).get("status") != "RuntimeError":
+        ex.notes.append(f"a raw LinComb block condition is no longer rejected: {probe.get('api')}")
+    for i, (p, o) in enumerate(zip(progs_, outs)):
         ex.evaluations += 1
-        d = json.loads(o.split("|", 1)[1]); d2 = json.loads(o2.split("|", 1)[1])
-        if "harness-error" in d:
-            raise common.Infra(str(d))
-        kinds = [k for k in ("if", "for", "while", "ite") if uses(p, f'["{k}"')]
+        d = json.loads(o.split("|", 1)[1])
+        d2s = [json.loads(x.split("|", 1)[1]) for x in outs2[NTW * i:NTW * i + NTW]]
+        mo = mouts.get(i)
+        if "harness-error" in d or any("harness-error" in x for x in d2s):
+            raise common.Infra(str(d)[:600] + str([x for x in d2s if "harness-error" in x])[:600])
+        kinds = [k for k in ("if", "for", "while", "ite", "sel", "setitem", "ref") if uses(p, f'["{k}"')]
         for k in kinds: ex.count(f"construct:{k}")
+        ex.count(f"stream:{p['stream']}" + (f":{p.get('malformed')}" if p["stream"] == "malformed" else ""))
         if kinds:
             ex.distinct.add(json.dumps(p["body"]))
         nat, api = d["native"], d["api"]
         ex.count(f"native:{nat['status']}"); ex.count(f"api:{api['status']}")
         sig_kind = "+".join(kinds) or "straight"
         rep = {"program": p, "source": d.get("src", "")[:1500]}
+        if p.get("typed"):
+            for k in sorted(set(p["kinds"].values())): ex.count(f"kind:{k}")
+        # ---- model vs code (programs of the Lean statement language)
+        m = parse_model(mo) if mo is not None else {"status": "skipped"}
+        if mo is not None and (m["status"] in ("bad", "bad-program", "bad-case") or mo.endswith("bad-line")):
+            raise common.Infra("lean driver: " + mo[:300])
+        ex.count(f"model:{m['status']}")
+        if mo is None:
+            pass
+        elif m["status"] == "err:UNMODELLED":
+            ex.unmodelled += 1
+        else:
+            rep["model_line"] = model_line("r", p)
+            dm = diff_model(api, m)
+            if dm:
+                ex.disagreements.append({"case": model_line(f"b{i}", p), "diff": dm[:3], "impl_status": api["status"], "model_status": m["status"]})
+            else:
+                ex.traces_validated += 1
+            # Spec/Native.lean against the native Python run
+            if nat["status"] == "ok" and m.get("NAT") not in (None, "uncapped"):
+                want = ";".join(f"{vnum(k)}={v}" for k, v in sorted(nat["vars"].items(), key=lambda kv: vnum(kv[0])))
+                if m["NAT"] != want:
+                    ex.disagreements.append({"case": model_line(f"b{i}", p), "diff": [("N", f"Spec/Native={m['NAT'][:120]} python={want[:120]}")]})
+            if m.get("NAT") == "uncapped":
+                ex.count("spec-native:uncapped-loop-reached")
+        # ---- direct oracle: only for programs inside the documented domain
+        if p["stream"] not in ("valid", "typed") and p.get("feature") != "negative-for-bound":
+            continue
+        sig = {"constructs": sig_kind}
+        if p.get("feature"):
+            sig["feature"] = p["feature"]
+        if p.get("typed"):
+            sig["typed"] = True
+        if nat["status"] == "ok" and api["status"] == "ValueError" and re.search(r"is not a \d+-bit integer", api.get("msg", "")):
+            ex.count("out-of-domain:comparison-operand-exceeds-bitlength")      # the library's documented range check, not a deviation
+            continue
         if nat["status"] == "ok" and api["status"] != "ok":
-            ex.violations.append(Violation({"dev": "raises", "error": api["status"], "constructs": sig_kind},
+            ex.violations.append(Violation(dict(sig, dev="raises", error=api["status"]),
                                            f"the oblivious version raises {api['status']} ({api.get('msg', '')[:80]}) where native control flow completes",
                                            rep))
             continue
         if nat["status"] != "ok" or api["status"] != "ok":
             continue
-        ex.traces_validated += 1
-        bad = [k for k, v in nat["vars"].items() if k in api["vars"] and api["vars"][k][1] != v]
-        missing = [k for k in nat["vars"] if k not in api["vars"]]
+        bad = [k for k, v in nat["num"].items() if k in api["num"] and api["num"][k] != v]
+        missing = [k for k in nat["num"] if k not in api["num"]] + [k for k in api["num"] if k not in nat["num"]]
+        badref = [k for k, v in nat["refs"].items() if api["refs"].get(k) != v]
         if bad or missing:
             k = (bad or missing)[0]
-            ex.violations.append(Violation({"dev": "wrong-value", "constructs": sig_kind},
-                                           f"variable {k}: oblivious version {api['vars'].get(k)} vs native {nat['vars'][k]}", rep))
+            ex.violations.append(Violation(dict(sig, dev="wrong-value"),
+                                           f"variable {k}: oblivious version {api['num'].get(k)} vs native {nat['num'].get(k)}", rep))
+        if badref:
+            k = badref[0]
+            ex.violations.append(Violation(dict(sig, dev="wrong-value-through-reference"),
+                                           f"list reference {k} taken before a block: oblivious version {api['refs'].get(k)} vs native {nat['refs'].get(k)}", rep))
         if api.get("unsat"):
-            ex.violations.append(Violation({"dev": "unsatisfied", "constructs": sig_kind},
+            ex.violations.append(Violation(dict(sig, dev="unsatisfied"),
                                            f"constraint #{api['unsat'][0]} of the oblivious version is not satisfied by the recorded witness", rep))
+        if api.get("incoh"):
+            ex.violations.append(Violation(dict(sig, dev="incoherent"),
+                                           f"final value of {api['incoh'][0]} differs from its wire expression evaluated on the recorded witness", rep))
         if api.get("stack") or api.get("guard"):
-            ex.violations.append(Violation({"dev": "dangling-guard", "constructs": sig_kind},
+            ex.violations.append(Violation(dict(sig, dev="dangling-guard"),
                                            "after the program a guard / an open block context is left behind", rep))
-        a2 = d2.get("api", {})
-        if a2.get("status") == "ok" and (a2["ncons"], a2["npriv"]) != (api["ncons"], api["npriv"]):
-            ex.violations.append(Violation({"dev": "shape-depends-on-values", "constructs": sig_kind},
-                                           f"the same program emits {api['ncons']} constraints/{api['npriv']} wires on one input and "
-                                           f"{a2['ncons']}/{a2['npriv']} on another", dict(rep, other_inputs=twins[progs_.index(p)]["inputs"])))
+        for j, d2 in enumerate(d2s):
+            a2 = d2.get("api", {})
+            if a2.get("status") != "ok":
+                continue
+            ex.count("oblivious-pairs")
+            tw = twins[NTW * i + j]
+            other = {"other_inputs": tw["inputs"], "other_init": tw["init"], "other_finputs": tw.get("finputs", [])}
+            if a2.get("unsat") or a2.get("incoh"):
+                ex.violations.append(Violation(dict(sig, dev="unsatisfied" if a2.get("unsat") else "incoherent"),
+                                               "on a second input vector a constraint is not satisfied / a final value is not coherent with its wire expression",
+                                               dict(rep, program=tw)))
+            if (a2["ncons"], a2["npriv"]) != (api["ncons"], api["npriv"]):
+                ex.violations.append(Violation(dict(sig, dev="shape-depends-on-values"),
+                                               f"the same program emits {api['ncons']} constraints/{api['npriv']} wires on one input and "
+                                               f"{a2['ncons']}/{a2['npriv']} on another", dict(rep, **other)))
+            elif parse_state(a2["canon_state"])["CONS"] != parse_state(api["canon_state"])["CONS"]:
+                ex.violations.append(Violation(dict(sig, dev="shape-depends-on-values"),
+                                               "the same program emits different constraints on two input vectors", dict(rep, **other)))
+            elif a2["var_lcs"] != api["var_lcs"]:
+                k = next(k for k in api["var_lcs"] if a2["var_lcs"].get(k) != api["var_lcs"][k])
+                ex.violations.append(Violation(dict(sig, dev="shape-depends-on-values"),
+                                               f"kind / wire expression of final variable {k} depends on the inputs: {str(api['var_lcs'][k])[:80]} vs "
+                                               f"{str(a2['var_lcs'].get(k))[:80]}", dict(rep, **other)))
+            # the native twin on the second vector as well
+            n2 = d2.get("native", {})
+            if n2.get("status") == "ok" and (n2["num"] != a2["num"] or n2["refs"] != a2["refs"]) and not p.get("feature"):
+                k = next((k for k in n2["num"] if a2["num"].get(k) != n2["num"][k]), "ref")
+                ex.violations.append(Violation(dict(sig, dev="wrong-value"),
+                                               f"variable {k}: oblivious version {a2['num'].get(k)} vs native {n2['num'].get(k)}", dict(rep, program=tw)))
         if len(ex.samples) < 4 and kinds:
             ex.samples.append(d.get("src", "")[:600])
     return ex
 
 
 def replay(ctx, payload):
-    line = f"B|r|16|{json.dumps(payload['replay']['program'])}"
-    print(common.run_workers([line], script="worker_block.py")[0][:3000])
+    rp = payload.get("replay") or {}
+    prog = rp.get("program")
+    if prog is None and payload.get("correspondence_disagreements"):
+        print("correspondence disagreement; model line:", payload["correspondence_disagreements"][0].get("case"))
+        ml = payload["correspondence_disagreements"][0]["case"]
+        print("model:", common.lean_driver([ml])[0][:3000])
+        return 0
+    line = f"B|r|16|{json.dumps(prog)}"
+    print("impl :", common.run_workers([line], script="worker_block.py")[0][:3000])
+    if prog.get("typed"):
+        print("model: (typed program: outside the Lean statement language, direct oracle only)")
+    else:
+        print("model:", common.lean_driver([model_line("r", prog)])[0][:3000])
     return 0
